@@ -199,6 +199,15 @@ impl Ctx {
         }
         self.count("violations_raw");
     }
+    pub fn violations_so_far(&self) -> usize {
+        self.violations.len()
+    }
+    /// add context to the violation recorded last (the signature is left alone: known findings are matched on it)
+    pub fn annotate_last(&mut self, note: &str) {
+        if let Some((_, _, v)) = self.violations.last_mut() {
+            v.detail.put("context", J::s(note));
+        }
+    }
     pub fn has_violation_in_case(&self) -> bool {
         self.violations
             .iter()
